@@ -298,7 +298,7 @@ def _build(spec, rso_mod=None, variant=None):
             return zs[0][:n]
         return zfull[:n]
 
-    def expr(e):
+    def expr(e, split=False):
         a = np.array(e['a'], float)
         P = np.array(e['P'], float)
         q = np.array(e['q'], float)
@@ -307,6 +307,7 @@ def _build(spec, rso_mod=None, variant=None):
             ab = a[xoff[bi]:xoff[bi + 1]]
             if ab.any() or bi == 0:
                 terms.append(arr(ab) @ x if rng.random() < 0.5 else (x * arr(ab)).sum())
+        ndet = len(terms)
         for i, b in enumerate(e['b']):
             b = np.array(b, float)
             if b.any():
@@ -326,6 +327,15 @@ def _build(spec, rso_mod=None, variant=None):
             qb = q[zoff[zi]:zoff[zi + 1]]
             if qb.any():
                 terms.append(arr(qb) @ z if rng.random() < 0.5 else (z * arr(qb)).sum())
+        if split:
+            # (here-and-now part, everything that involves rules or random variables or None)
+            det = terms[0]
+            for t in terms[1:ndet]:
+                det = det + t
+            rest = None
+            for t in terms[ndet:]:
+                rest = t if rest is None else rest + t
+            return det + e['k'], rest
         if variant.get('shuffle_terms'):
             rng.shuffle(terms)
         out = terms[0]
@@ -449,7 +459,7 @@ def _build(spec, rso_mod=None, variant=None):
         _hook(variant, 'row', B)
         lhs = expr(row['e'])
         rhs = row['rhs']
-        form = int(rrng.integers(4)) if variant.get('row_form') else 0
+        form = int(rrng.integers(4)) if variant.get('row_form') else int(rng.integers(4))
         scale = float(np.round(rrng.uniform(0.2, 5.0), 2)) if variant.get('rescale_rows') else 1.0
         if scale != 1.0:
             lhs = scale * lhs
@@ -460,6 +470,10 @@ def _build(spec, rso_mod=None, variant=None):
             own = lambda: S.build_rsome(row['set'], zpart(spec['nzr']), rng)
         if sense == 'eq' and variant.get('split_eq'):
             cs = [lhs <= rhs, lhs >= rhs]
+        elif sense == 'eq' and form == 3 and scale == 1.0:
+            # the here-and-now part alone on the left, rules and random terms on the right
+            det_, rest_ = expr(row['e'], split=True)
+            cs = [det_ == rhs - rest_] if rest_ is not None else [det_ == rhs]
         elif sense == 'eq':
             cs = [lhs == rhs] if form % 2 == 0 else [rhs == lhs]
         else:
